@@ -87,6 +87,33 @@ impl SearchResult {
     }
 }
 
+/// Copy of `text` in which the contents of string literals are replaced by `_` (same byte length),
+/// so that operator characters inside a literal are not mistaken for operators.
+fn mask_quoted(text: &str) -> String {
+    let mut out = String::with_capacity(text.len());
+    let mut quote: Option<char> = None;
+    for ch in text.chars() {
+        match quote {
+            Some(q) if ch == q => {
+                quote = None;
+                out.push(ch);
+            }
+            Some(_) => {
+                for _ in 0..ch.len_utf8() {
+                    out.push('_');
+                }
+            }
+            None => {
+                if ch == '"' || ch == '\'' {
+                    quote = Some(ch);
+                }
+                out.push(ch);
+            }
+        }
+    }
+    out
+}
+
 /// Depth-first search implementation
 pub struct DepthFirstSearch {
     max_depth: usize,
@@ -488,8 +515,10 @@ impl DepthFirstSearch {
             (" matches ", Operator::Matches),
         ];
 
+        // operators are looked for outside string literals (`X == "a >= b"` compares with a string)
+        let masked = mask_quoted(pattern);
         for (op_str, operator) in operators {
-            if let Some(pos) = pattern.find(op_str) {
+            if let Some(pos) = masked.find(op_str) {
                 let field = pattern[..pos].trim().to_string();
                 let value_str = pattern[pos + op_str.len()..].trim();
 
@@ -1088,8 +1117,10 @@ impl BreadthFirstSearch {
             (" matches ", Operator::Matches),
         ];
 
+        // operators are looked for outside string literals (`X == "a >= b"` compares with a string)
+        let masked = mask_quoted(pattern);
         for (op_str, operator) in operators {
-            if let Some(pos) = pattern.find(op_str) {
+            if let Some(pos) = masked.find(op_str) {
                 let field = pattern[..pos].trim().to_string();
                 let value_str = pattern[pos + op_str.len()..].trim();
 
